@@ -6,6 +6,7 @@ pub mod tape;
 pub mod runner;
 pub mod drive;
 pub mod gen;
+pub mod allocstat;
 pub mod mutate;
 pub mod oracle;
 pub mod props;
